@@ -12,9 +12,9 @@ def run(tier, replay):
         events = json.load(open(replay))["replay"]["events"]
     else:
         if tier == "quick":
-            jobs = [["crash", 1, 0, 1, 0, 1], ["crash", 2, 20, 2, 1, 1], ["crash", 2, 40, 3, 2, 0], ["crash", 2, 70, 4, 0, 1], ["crash", 1, 40, 0, 1, 0], ["crash", 2, 70, 1, 2, 0]]
+            jobs = [["crash", 1, 0, 1, 0, 1], ["crash", 2, 20, 2, 1, 1, "zt"], ["crash", 2, 40, 3, 2, 0, "zt"], ["crash", 2, 70, 4, 0, 1], ["crash", 1, 40, 0, 1, 0, "zt"], ["crash", 2, 70, 1, 2, 0]]
         else:
-            jobs = [["crash", T, n, cm, (n // 10 + cm) % 3, u] for T in (1, 2) for n in (0, 20, 40, 70) for cm in range(5) for u in (0, 1)]
+            jobs = [["crash", T, n, cm, (n // 10 + cm) % 3, u] + (["zt"] if (n + cm) % 2 else []) for T in (1, 2) for n in (0, 20, 40, 70) for cm in range(5) for u in (0, 1)]
         events = fl.collect(res, PID, jobs)
     st, nfull = fl.judge(res, PID, events, full_sample=40 if tier == "quick" else 500)
     ops = [e for e in events if e["e"] == "op"]
